@@ -17,6 +17,7 @@
 //     and serialize to the same text again.
 // ---------------------------------------------------------------------------------------------------------------------------------
 
+static EC_SORT_ONLY: std::sync::atomic::AtomicBool = std::sync::atomic::AtomicBool::new(false);
 struct EcRng(u64);
 impl EcRng {
     fn next(&mut self) -> u64 { self.0 ^= self.0 << 13; self.0 ^= self.0 >> 7; self.0 ^= self.0 << 17; self.0 }
@@ -169,6 +170,18 @@ fn ec_one(path: &[(autosar_data::ElementName, autosar_data_specification::Elemen
                 if e.element_type() != st { return Err(ctx(format!("the created {} has a type other than the one listed for {:?}", n, v))); }
             } else if now.len() != before_count { return Err(ctx(format!("a refused creation of {} changed the children", n))); }
         }
+    }
+    let sort_only = EC_SORT_ONLY.load(std::sync::atomic::Ordering::Relaxed);
+    if sort_only {
+        cur.sort();
+        let mut kids: Vec<Vec<usize>> = Vec::new();
+        for se in cur.sub_elements() { if let Some((_, idx)) = t.find_sub_element(se.element_name(), vm) { kids.push(idx); } }
+        stats[5] += 1;
+        if !ec_conform(t, &kids) { return Err(format!("after sort() the children of {} are not in specification order for {}: {:?}", cur.element_name(), v.filename(), cur.sub_elements().map(|e| e.element_name().to_string()).collect::<Vec<_>>())); }
+        let once = cur.serialize();
+        cur.sort();
+        if cur.serialize() != once { return Err(format!("sorting {} twice differs from sorting once", cur.element_name())); }
+        return Ok(());
     }
     // values and attributes on the element itself and on its children
     let mut targets: Vec<Element> = vec![cur.clone()];
@@ -329,6 +342,15 @@ fn ec_one(path: &[(autosar_data::ElementName, autosar_data_specification::Elemen
             }
         }
     }
+    // sorting keeps the children in specification order for the file's version (C14 "keeps the model valid", seen through the C07 oracle)
+    {
+        cur.sort();
+        let mut kids: Vec<Vec<usize>> = Vec::new();
+        for se in cur.sub_elements() {
+            if let Some((_, idx)) = t.find_sub_element(se.element_name(), vm) { kids.push(idx); }
+        }
+        if !ec_conform(t, &kids) { return Err(format!("after sort() the children of {} are not in specification order for {}: {:?}", cur.element_name(), v.filename(), cur.sub_elements().map(|e| e.element_name().to_string()).collect::<Vec<_>>())); }
+    }
     // serialize -> lenient load -> serialize
     let text = file.serialize().map_err(|e| format!("serialize: {}", e))?;
     stats[5] += 1;
@@ -360,6 +382,11 @@ fn ec_versions_for(mask: u32, ordinal: usize, per_type: usize) -> Vec<autosar_da
     out
 }
 
+fn api_sortorder(args: &[String]) {
+    EC_SORT_ONLY.store(true, std::sync::atomic::Ordering::Relaxed);
+    api_editconform(args);
+}
+
 fn api_editconform(args: &[String]) {
     let budget: usize = args.get(0).and_then(|s| s.parse().ok()).unwrap_or(2000);
     let seed: u64 = args.get(1).and_then(|s| s.parse().ok()).unwrap_or(1);
@@ -384,6 +411,11 @@ fn api_editconform(args: &[String]) {
     }
     if nfail == 0 { println!("OK {} scripts types={} of {} ranges={} listings={} creations={} values={} attributes={} reloads={}", runs, (types.len() + step - 1) / step, types.len(), stats[0], stats[1], stats[2], stats[3], stats[4], stats[5]); }
     else { println!("SURVEY failures={} kinds={} scripts={}", nfail, seen_fail.len(), runs); }
+}
+
+fn api_sortorder1(args: &[String]) {
+    EC_SORT_ONLY.store(true, std::sync::atomic::Ordering::Relaxed);
+    api_editconform1(args);
 }
 
 fn api_editconform1(args: &[String]) {
